@@ -2,12 +2,19 @@ package checks
 
 import (
 	"encoding/json"
+	"os"
 
 	"github.com/ansible/receptor/pkg/logger"
 	"verif/sim/simnet"
 )
 
-func quiet() { logger.SetGlobalQuietMode() }
+func quiet() {
+	if os.Getenv("VERIF_LOG") != "" { // debugging: let the code under test log
+		logger.SetGlobalLogLevel(logger.DebugLevel)
+		return
+	}
+	logger.SetGlobalQuietMode()
+}
 
 func routeMsg(ru *simnet.RoutingUpdate) []byte {
 	b, _ := json.Marshal(ru)
